@@ -24,6 +24,7 @@ var blClassForPurge = int64(-1)
 func runC21(w *World, r *Report) {
 	defer c21CachedTokenKeepsExpiry(w, r)
 	defer c21CacheHitRevocation(w, r)
+	defer c21FailedLookupNotCached(w, r)
 
 	r.Rule("R-C21-1", "acceptance gates (path-sensitive edge cut): for each guard g in {Decrypt error nil, not expired, not revoked, revocation lookup answered} no consistent path of Unwrap / Validate reaches a success return when g's edges are removed", 6)
 	r.Rule("R-C21-2", "Session.Authenticate: the authenticated-by-cache assignment is unreachable once the edges {cached token not expired, cached value is not a full token, cached token has no expiry} are removed", 1)
